@@ -135,6 +135,9 @@ struct MTrack {
 	first_cb: u64,
 	drop_gap: Option<u64>,
 	fx_calls: Vec<Vec<Call>>,
+	/// lower bound of the time this track has been processed for: its tweens and
+	/// fades only advance while every track above it is advancing
+	local: f64,
 }
 
 struct MSend {
@@ -416,6 +419,7 @@ pub fn run_case(case: &Case) -> CaseResult {
 						first_cb: cb,
 						drop_gap: None,
 						fx_calls: vec![],
+						local: 0.0,
 					});
 				} else {
 					// keep indices stable: a placeholder that never existed
@@ -430,6 +434,7 @@ pub fn run_case(case: &Case) -> CaseResult {
 						first_cb: u64::MAX - 1,
 						drop_gap: Some(0),
 						fx_calls: vec![],
+						local: 0.0,
 					});
 					res.hit("limit_errors");
 				}
@@ -507,7 +512,8 @@ pub fn run_case(case: &Case) -> CaseResult {
 						if let Some(mt) = tracks.get_mut(*t) {
 							if let Some(h) = mt.handle.as_mut() {
 								h.set_volume(*db, tween_of(*tween));
-								mt.vol.set(a, t_now, *tween, slack);
+								let l = mt.local;
+								mt.vol.set(a, l, *tween, slack);
 							}
 						}
 					}
@@ -526,7 +532,8 @@ pub fn run_case(case: &Case) -> CaseResult {
 								let send_idx = mt.routes[k].0;
 								if let (Some(h), Some(sh)) = (mt.handle.as_mut(), sends[send_idx].handle.as_ref()) {
 									let _ = h.set_send(sh, *db, tween_of(*tween));
-									mt.routes[k].1.set(a, t_now, *tween, slack);
+									let l = mt.local;
+									mt.routes[k].1.set(a, l, *tween, slack);
 								}
 							}
 						}
@@ -537,7 +544,8 @@ pub fn run_case(case: &Case) -> CaseResult {
 				if let Some(mt) = tracks.get_mut(*track) {
 					if let Some(h) = mt.handle.as_mut() {
 						h.pause(tween_of(*tween));
-						mt.fade.set(0.0, t_now, *tween, slack);
+						let l = mt.local;
+						mt.fade.set(0.0, l, *tween, slack);
 						mt.pausing = true;
 					}
 				}
@@ -546,7 +554,8 @@ pub fn run_case(case: &Case) -> CaseResult {
 				if let Some(mt) = tracks.get_mut(*track) {
 					if let Some(h) = mt.handle.as_mut() {
 						h.resume(tween_of(*tween));
-						mt.fade.set(1.0, t_now, *tween, slack);
+						let l = mt.local;
+						mt.fade.set(1.0, l, *tween, slack);
 						mt.pausing = false;
 					}
 				}
@@ -658,7 +667,7 @@ pub fn run_case(case: &Case) -> CaseResult {
 					.iter()
 					.map(|t| {
 						if t.pausing {
-							if t.fade.settled(t_cb_start) {
+							if t.fade.settled(t.local) {
 								Expect::None
 							} else {
 								Expect::Prefix
@@ -742,7 +751,7 @@ pub fn run_case(case: &Case) -> CaseResult {
 					for ti in 0..tracks.len() {
 						if let Some(p) = tracks[ti].parent {
 							let p_lo = if !t_present[p] || tracks[p].pausing { 0.0 } else { anc_lo[p] };
-							let p_hi = if !t_present[p] || (tracks[p].pausing && tracks[p].fade.settled(tc)) { 0.0 } else { anc_hi[p] };
+							let p_hi = if !t_present[p] || (tracks[p].pausing && tracks[p].fade.settled(tracks[p].local)) { 0.0 } else { anc_hi[p] };
 							anc_lo[ti] = p_lo;
 							anc_hi[ti] = p_hi;
 						}
@@ -780,12 +789,13 @@ pub fn run_case(case: &Case) -> CaseResult {
 								hi[i] = Frame::new(hi[i].left * fx.gain + fx.offset.0, hi[i].right * fx.gain + fx.offset.1);
 							}
 						}
-						let (vlo, vhi) = t.vol.at(tc);
-						let (mut flo, mut fhi) = t.fade.at(tc);
+						let tl = t.local;
+						let (vlo, vhi) = t.vol.at(tl);
+						let (mut flo, mut fhi) = t.fade.at(tl);
 						if t.pausing {
 							// from the moment the pause fade may have finished the track may already be silent
 							flo = 0.0;
-							if t.fade.settled(tc) {
+							if t.fade.settled(tl) {
 								fhi = 0.0;
 							}
 						}
@@ -797,7 +807,7 @@ pub fn run_case(case: &Case) -> CaseResult {
 							hi[i] = hi[i] * (vhi * fhi);
 						}
 						for (s, g) in t.routes.iter_mut() {
-							let (rlo, rhi) = g.at(tc);
+							let (rlo, rhi) = g.at(tl);
 							if rlo != rhi {
 								all_points = false;
 							}
@@ -901,6 +911,11 @@ pub fn run_case(case: &Case) -> CaseResult {
 						}
 					}
 					offset += n;
+					for ti in 0..tracks.len() {
+						if t_present[ti] && anc_lo[ti] == 1.0 {
+							tracks[ti].local += n as f64 / sr as f64;
+						}
+					}
 				}
 				// bookkeeping after the callback
 				for s in sounds.iter_mut() {
